@@ -84,6 +84,11 @@ M = [
      "    for i in prange(n):\n        start = start_offsets[i]\n        stop = stop_offsets[i]\n\n        # Check for points in rect",
      "    for i in prange(n):\n        if i % 1024 == 0:\n            result[i:i + 1024] = False\n        start = start_offsets[i]\n        stop = stop_offsets[i]\n\n        # Check for points in rect",
      ["C18"]),
+    ("c09-reserved-column-returned-unchanged", "spatialpandas/dask.py",
+     "            raise ValueError(\n                \"Cannot pack a frame that already has a column named 'hilbert_distance'. \"\n                \"Rename that column first\"\n            )\n",
+     "            return self\n", ["C09", "C10"]),
+    ("c05-key-column-check-removed", "spatialpandas/tools/sjoin.py",
+     "    key_columns = [\"_key_left\", \"_key_right\"]\n    if any(", "    key_columns = []\n    if any(", ["C05"]),
     ("c06-min-not-nanmin", "spatialpandas/dask.py", "            np.nanmin(partition_bounds['x0']),", "            np.min(partition_bounds['x0']),", ["C06", "C13"]),
 ]
 
